@@ -11,7 +11,9 @@ import json
 import os
 import sys
 
-sys.path.insert(0, os.path.join(os.path.dirname(os.path.dirname(os.path.abspath(__file__))), ".deps"))
+for _deps in (os.environ.get("VERIF_DEPS"), os.path.join(os.path.dirname(os.path.dirname(os.path.abspath(__file__))), ".deps"), "/verif/.deps"):
+    if _deps and os.path.isdir(_deps) and _deps not in sys.path:
+        sys.path.insert(0, _deps)
 
 
 class Violation(Exception):
